@@ -505,6 +505,17 @@ func checkFrameReaderReadFull(c *Ctx) {
 			switch {
 			case cn == "io.ReadFull":
 				full++
+				// from the function's own reader parameter, not from a wrapper created per call (a buffered
+				// wrapper reads ahead and its surplus — the next frame — is thrown away with it)
+				own := false
+				for _, pa := range f.Params {
+					if isParamValue(c.P, ci.Call.Args[0], pa) {
+						own = true
+					}
+				}
+				if !own && bad == "" {
+					bad, badPos = "io.ReadFull on "+exprStr(ci.Call.Args[0])+" (not the reader it was given) in "+funcName(f), instrPos(in)
+				}
 			case ci.Call.IsInvoke() && ci.Call.Method.Name() == "Read", cn == "io.ReadAtLeast", cn == "io.ReadAll", cn == "io.Copy", cn == "io.CopyN":
 				if bad == "" {
 					bad, badPos = cn+" in "+funcName(f), instrPos(in)
@@ -521,6 +532,40 @@ func checkFrameReaderReadFull(c *Ctx) {
 		return
 	}
 	c.check(full >= 2, "frame-reader:readfull-only", rd.Pos(), "header and body are taken from the connection with io.ReadFull only", "the frame reader does not read header and body with io.ReadFull")
+	// the reader parameter has no other use than io.ReadFull (no wrapping, no type switch, no hand-off)
+	for _, pa := range rd.Params {
+		for _, r := range referrers(pa) {
+			switch x := r.(type) {
+			case *ssa.DebugRef:
+			case *ssa.Call:
+				if callName(x) == "io.ReadFull" && x.Call.Args[0] == ssa.Value(pa) {
+					continue
+				}
+				c.fail("frame-reader:reader-unwrapped", instrPos(x), "the reader given to the frame reader is handed to %s: bytes it reads ahead are lost to the next frame", callName(x))
+				return
+			case *ssa.Store:
+				// spilled parameter cell: its loads must obey the same rule
+				for _, r2 := range referrers(x.Addr) {
+					if ld, ok := r2.(*ssa.UnOp); ok && ld.Op == token.MUL {
+						for _, r3 := range referrers(ld) {
+							if cl, ok := r3.(*ssa.Call); ok && callName(cl) == "io.ReadFull" {
+								continue
+							}
+							if _, ok := r3.(*ssa.DebugRef); ok {
+								continue
+							}
+							c.fail("frame-reader:reader-unwrapped", instrPos(r3.(ssa.Instruction)), "the reader given to the frame reader is used by something other than io.ReadFull")
+							return
+						}
+					}
+				}
+			default:
+				c.fail("frame-reader:reader-unwrapped", instrPos(r), "the reader given to the frame reader is used by %s, not only by io.ReadFull: a wrapper (bufio, LimitReader…) reads ahead and drops the next frame", strings.TrimSpace(r.String()))
+				return
+			}
+		}
+	}
+	c.ok("frame-reader:reader-unwrapped", rd.Pos(), "the reader parameter flows only into io.ReadFull")
 }
 
 // checkLineLoader: a text loader passes to its per-line parser the scanner's line cleaned by a chain of recognised
@@ -854,4 +899,325 @@ func checkPackBufferExact(c *Ctx) {
 		}
 	}
 	c.check(n > 0, key, f.Pos(), "every non-nil result is GetBuf(len(wire)) holding a copy of the packed message", "PackBuffer never returns a buffer")
+}
+
+// checkReplyChanConsumers: a reply channel has exactly one kind of consumer: the exchange function that registered it,
+// and whatever it receives there is what that exchange returns. Any other receiver (a close path that "drains" the
+// queue, a reply case that discards and waits again) takes a delivered reply away from its caller.
+func checkReplyChanConsumers(c *Ctx, funcs []*ssa.Function) {
+	allowed := map[string]bool{
+		"(*" + relTransport + ".TraditionalDnsConn).exchange": true,
+		"(*" + relTransport + ".reusableConn).exchange":       true,
+	}
+	retOnly := func(from *ssa.BasicBlock, v ssa.Value) (bool, string) {
+		// every exit reachable from `from` is a return of v; no way back to a wait
+		ok, why := true, ""
+		seen := map[*ssa.BasicBlock]bool{}
+		var walk func(b *ssa.BasicBlock)
+		walk = func(b *ssa.BasicBlock) {
+			if seen[b] || !ok {
+				return
+			}
+			seen[b] = true
+			for _, in := range b.Instrs {
+				switch x := in.(type) {
+				case *ssa.Return:
+					rv := returnedValues(x)
+					if len(rv) == 0 || rv[0] != v {
+						ok, why = false, "a path after the receive returns "+exprStr(rv[0])+" instead of the received reply"
+					}
+					return
+				case *ssa.Select:
+					ok, why = false, "after receiving a reply the function waits again instead of returning it"
+					return
+				case *ssa.Call:
+					if callName(x) == poolRel {
+						ok, why = false, "the received reply is released instead of returned"
+						return
+					}
+				}
+			}
+			for _, s := range b.Succs {
+				walk(s)
+			}
+		}
+		walk(from)
+		return ok, why
+	}
+	for _, f := range funcs {
+		fn := f
+		eachInstr(f, func(in ssa.Instruction) {
+			switch x := in.(type) {
+			case *ssa.UnOp:
+				if x.Op != token.ARROW || !isReplyChanType(x.X.Type()) {
+					return
+				}
+				c.see(fn)
+				c.check(false, "reply-consumer@"+funcName(fn), instrPos(in), "", "a plain receive on a reply channel outside the waiting select of an exchange")
+			case *ssa.Select:
+				cases, _, okd := decodeSelect(x)
+				for _, cs := range cases {
+					if cs.State.Dir != types.RecvOnly || !isReplyChanType(cs.State.Chan.Type()) {
+						continue
+					}
+					c.see(fn)
+					key := "reply-consumer@" + funcName(fn)
+					if !allowed[funcName(fn)] {
+						c.fail(key, instrPos(in), "%s receives from a reply channel: only the exchange that registered the channel may take a reply out of it (here a delivered reply is taken away from its waiting caller, who then reports a timeout or the close error)", funcName(fn))
+						continue
+					}
+					if !okd || cs.Body == nil || cs.Recv == nil {
+						c.undecided(key, instrPos(in), "cannot decode the receive case")
+						continue
+					}
+					good, why := retOnly(cs.Body, cs.Recv)
+					c.check(good, key, instrPos(in), "the received reply is returned on every path", why+": a reply that arrived in time is lost")
+				}
+			}
+		})
+	}
+}
+
+// checkWaiterLifetime: the waiter registered by an exchange stays registered until that exchange returns: removals
+// happen only in deferred calls of the registering function, and the registrar is called once (not on a cycle).
+func checkWaiterLifetime(c *Ctx, funcs []*ssa.Function, inserter *ssa.Function) {
+	p := c.P
+	T := relTransport + "."
+	deleters := map[*ssa.Function]bool{}
+	for _, w := range p.whoWrites().byField[T+"TraditionalDnsConn.queue"] {
+		if w.Kind == "delete" {
+			deleters[w.Fn] = true
+		}
+	}
+	for _, f := range funcs {
+		fn := f
+		eachInstr(f, func(in ssa.Instruction) {
+			ci, ok := in.(ssa.CallInstruction)
+			if !ok {
+				return
+			}
+			sc := staticCallee(ci)
+			if sc == nil {
+				return
+			}
+			if sc == inserter {
+				c.see(fn)
+				_, cyc := reachAvoiding(in, func(x ssa.Instruction) bool { return x == in }, nil)
+				c.check(!cyc, "register-once@"+funcName(fn), instrPos(in), "the waiter is registered once per exchange", "the exchange registers a waiter repeatedly (on a loop): replies to the earlier transmissions, which carry the earlier id, find no waiter and are dropped")
+				return
+			}
+			if !deleters[sc] {
+				return
+			}
+			c.see(fn)
+			key := "unregister-only-at-exit@" + funcName(fn)
+			_, isDefer := in.(*ssa.Defer)
+			// inside an anonymous function that the registering function defers
+			inDeferred := false
+			if par := fn.Parent(); par != nil {
+				eachInstr(par, func(y ssa.Instruction) {
+					if d, ok := y.(*ssa.Defer); ok {
+						if mc, ok := d.Call.Value.(*ssa.MakeClosure); ok && mc.Fn == ssa.Value(fn) {
+							inDeferred = true
+						}
+					}
+				})
+			}
+			if inDeferred {
+				// and unconditionally inside that deferred closure
+				if len(guardsOfInstr(in)) > 0 {
+					c.fail(key, instrPos(in), "the deferred removal of the waiter is conditional (%s): on the other paths the wire id stays registered for good, the table fills up and admitted queries fail with 'too many queries'", guardText(guardsOfInstr(in)[0]))
+					return
+				}
+			}
+			c.check(isDefer || inDeferred, key, instrPos(in), "the waiter is removed only by a deferred call (at function exit)",
+				"the waiter is removed before the exchange returns: a reply that arrives afterwards — in time for the caller's deadline — finds no waiter and is dropped")
+		})
+	}
+}
+
+// checkAttemptOutcome (C08-R7): a failed attempt on a connection is visible as a non-nil error to the retry loop,
+// promptly: (a) every reply wait of the attempt functions also wakes on the connection's close notification,
+// (b) the close functions store the close error before they close the notification channel, (c) an attempt never
+// returns a nil reply together with an error that may be nil.
+func checkAttemptOutcome(c *Ctx) {
+	p := c.P
+	T := relTransport + "."
+	cn := closeNotifyFields(p, relTransport)
+	for _, an := range []struct{ recv, name string }{{"TraditionalDnsConn", "exchange"}, {"reusableConn", "exchange"}} {
+		f := c.fn(relTransport, an.recv, an.name)
+		if f == nil {
+			continue
+		}
+		c.see(f)
+		// (a)
+		eachInstr(f, func(in ssa.Instruction) {
+			sel, ok := in.(*ssa.Select)
+			if !ok || !sel.Blocking {
+				return
+			}
+			isWait, wakes := false, false
+			for _, st := range sel.States {
+				if st.Dir == types.RecvOnly && isReplyChanType(st.Chan.Type()) {
+					isWait = true
+				}
+				if k, ok := loadedField(st.Chan); ok && cn[k] {
+					wakes = true
+				}
+			}
+			if isWait {
+				c.check(wakes, "attempt-wakes-on-close@"+funcName(f), instrPos(in), "the reply wait also watches the close notification",
+					"the reply wait does not watch the connection's close notification: when a reused connection dies the query sits until its own context expires, and the retry then runs with a dead context")
+			}
+		})
+		// (c)
+		for _, r := range returnsOf(f) {
+			rv := returnedValues(r)
+			if len(rv) != 2 || !isNilConst(rv[0]) {
+				continue
+			}
+			okErr := true
+			why := ""
+			for _, lf := range expandCases(rv[1], nil, 0) {
+				v := lf.val
+				// an error value tested `!= nil` on this path
+				nnGuard := false
+				for _, g := range append(lf.guards, guardsOfInstr(r)...) {
+					if cm, ok := g.asCmp(); ok && cm.X == v && isNilConst(cm.Y) && cm.Op == token.NEQ {
+						nnGuard = true
+					}
+				}
+				if nnGuard {
+					continue
+				}
+				switch x := v.(type) {
+				case *ssa.Const:
+					if isNilConst(x) {
+						okErr, why = false, "a nil error"
+					}
+				case *ssa.UnOp:
+					if k, isF := loadedField(v); isF && (strings.HasSuffix(k, ".closeErr")) {
+						continue // non-nil once the notification is closed: clause (b)
+					}
+					if _, isG := x.X.(*ssa.Global); isG {
+						continue // a package-level error value
+					}
+					okErr, why = false, exprStr(v)
+				case *ssa.Call:
+					if callName(x) == "context.Cause" {
+						continue
+					}
+					okErr, why = false, exprStr(v)
+				default:
+					// an error value under `!= nil`
+					nn := false
+					for _, g := range append(lf.guards, guardsOfInstr(r)...) {
+						if cm, ok := g.asCmp(); ok && cm.X == v && isNilConst(cm.Y) && cm.Op == token.NEQ {
+							nn = true
+						}
+					}
+					if !nn {
+						okErr, why = false, exprStr(v)
+					}
+				}
+			}
+			c.check(okErr, "attempt-fails-with-error@"+funcName(f), instrPos(r), "a nil reply comes with a non-nil error", "the attempt can return a nil reply with "+why+": the retry loop takes it for a success and hands the caller nothing")
+		}
+	}
+	// (b)
+	for _, cf := range []struct{ recv, name, errField, notify string }{
+		{"TraditionalDnsConn", "CloseWithErr", T + "TraditionalDnsConn.closeErr", T + "TraditionalDnsConn.closeNotify"},
+		{"reusableConn", "closeWithErr", T + "reusableConn.closeErr", T + "reusableConn.closeNotify"},
+	} {
+		f := c.fn(relTransport, cf.recv, cf.name)
+		if f == nil {
+			continue
+		}
+		good, n := true, 0
+		eachInstrDeep(f, func(g *ssa.Function, in ssa.Instruction) {
+			ci, ok := isCall(in, "builtin:close")
+			if !ok {
+				return
+			}
+			if k, _ := loadedField(ci.Common().Args[0]); k != cf.notify {
+				return
+			}
+			n++
+			stored := false
+			eachInstr(g, func(x ssa.Instruction) {
+				if st, ok := x.(*ssa.Store); ok {
+					if k, _ := fieldKey(st.Addr); k == cf.errField && instrDominates(x, in) {
+						stored = true
+					}
+				}
+			})
+			if !stored {
+				good = false
+			}
+		})
+		c.check(good && n > 0, "close-error-before-notify@"+cf.recv, f.Pos(), "the close error is stored before the notification is closed",
+			"the close notification is closed before the close error is stored: a waiter woken by it returns (nil, nil), which the retry loop treats as success")
+	}
+}
+
+// iterationCanSkip: inside the innermost loop around target, is there a path from the loop head around the loop and
+// back to the head that does not execute target? Edges for which allowedSkip returns true are not followed (legitimate
+// skips such as "this record is the OPT pseudo-record"). Unlike a comparison of guard sets this also sees skips written
+// with && / || (whose merge blocks have several predecessors and carry no single guard).
+func iterationCanSkip(target ssa.Instruction, allowedSkip func(iff *ssa.If, truth bool) bool) (bool, *ssa.BasicBlock) {
+	hdr := innermostLoopHeader(target.Block())
+	if hdr == nil {
+		return false, nil
+	}
+	// natural loop body: blocks that reach a back-edge source without passing the head
+	body := map[*ssa.BasicBlock]bool{hdr: true}
+	var up func(b *ssa.BasicBlock)
+	up = func(b *ssa.BasicBlock) {
+		if body[b] {
+			return
+		}
+		body[b] = true
+		for _, pr := range b.Preds {
+			up(pr)
+		}
+	}
+	for _, pr := range hdr.Preds {
+		if hdr.Dominates(pr) {
+			up(pr)
+		}
+	}
+	seen := map[*ssa.BasicBlock]bool{}
+	skip := false
+	var walk func(b *ssa.BasicBlock)
+	walk = func(b *ssa.BasicBlock) {
+		if skip || seen[b] || !body[b] {
+			return
+		}
+		seen[b] = true
+		if b == target.Block() {
+			return // the target executes on this path
+		}
+		iff, _ := terminator(b).(*ssa.If)
+		for si, s := range b.Succs {
+			if iff != nil && allowedSkip != nil && allowedSkip(iff, si == 0) {
+				continue
+			}
+			if s == hdr {
+				skip = true
+				return
+			}
+			walk(s)
+		}
+	}
+	iffH, _ := terminator(hdr).(*ssa.If)
+	for si, s := range hdr.Succs {
+		if iffH != nil && allowedSkip != nil && allowedSkip(iffH, si == 0) {
+			continue
+		}
+		if s == hdr {
+			continue
+		}
+		walk(s)
+	}
+	return skip, hdr
 }
